@@ -69,6 +69,24 @@ def overlay(primary, extra):
 
 
 _INFO = {}
+_LANG = {}
+
+
+def language_data(lang):
+    """The shipped data module of a language, read from its file into a private object: the library's own
+    module-level dict may be mutated by the code under test, the oracle's copy may not."""
+    import importlib.util
+    import os
+
+    if lang not in _LANG:
+        spec = importlib.util.find_spec("dateparser.data.date_translation_data")
+        path = os.path.join(list(spec.submodule_search_locations)[0], lang + ".py")
+        ns = {}
+        with open(path, encoding="utf-8") as f:
+            exec(compile(f.read(), path, "exec"), ns)
+        _LANG[lang] = ns["info"]
+    return _LANG[lang]
+
 
 
 def locale_info(loc, lang=None):
@@ -80,7 +98,7 @@ def locale_info(loc, lang=None):
         return _INFO[loc]
     if lang is None:
         lang = re.split(r"-(?=[A-Z0-9]+$)", loc)[0]
-    base = importlib.import_module("dateparser.data.date_translation_data." + lang).info
+    base = language_data(lang)
     spec = (base.get("locale_specific", {}) or {}).get(loc, {}) if loc != lang else {}
     info = overlay(base, spec)
     info.pop("locale_specific", None)
